@@ -10,7 +10,7 @@ from .common import root_of_expr, path_from_param, const_value, floor, call_name
 from . import targets, unitspec
 from .. import uscan
 
-DISPLAY_CATS = ('display', 'hr-base', 'std-format', 'display-truncation', 'convert-from-unit', 'storage-label')
+DISPLAY_CATS = ('display', 'hr-base', 'std-format', 'display-truncation', 'truncating-division', 'convert-from-unit', 'storage-label')
 FEED_CATS = DISPLAY_CATS + ('convert-from-unit', 'qstr', 'storage-label', 'add-units', 'sum-mix', 'from-storage',
                             'prefix-strip')
 
